@@ -50,6 +50,7 @@ class Spec:
     shuffle_exts: bool = False     # ServerHello extensions in random order
     master: bytes = None           # <= 1.2: use this master secret (a resumption shares it with the session it resumes; randoms are fresh)
     warn_alert: bool = False       # <= 1.2: the server sends a plaintext warning alert (unrecognized_name) right after its ServerHello record(s)
+    compress: bool = False         # <= 1.2: DEFLATE compression negotiated (RFC 3749) - NOT in C01's claimed domain; used by C13 for the with/without -a comparison only
     secrets13: dict = None         # TLS 1.3: use these traffic secrets ({"chs"|"shs"|"cap"|"sap": bytes}) instead of random ones (C15 picks secrets whose keys have edge values)
     cert_trap: bool = False        # Certificate body that reads as extensions 0x0016 / 0x002b=0304 to a parser that walks past the ServerHello
 
@@ -128,7 +129,8 @@ def build_conn(spec: Spec, rng) -> Conn:
     offer = list(spec.offered) + [spec.suite]
     rng.shuffle(offer)
     offered = b"".join(s.to_bytes(2, "big") for s in offer) + b"\x00\xff"
-    ch = legacy + cr + bytes([len(sid)]) + sid + len(offered).to_bytes(2, "big") + offered + b"\x01\x00"
+    deflate = bool(spec.compress) and v != 0x0304
+    ch = legacy + cr + bytes([len(sid)]) + sid + len(offered).to_bytes(2, "big") + offered + (b"\x02\x01\x00" if deflate else b"\x01\x00")
     if v != 0x0300:
         ce = ext(0, b"\x00\x0e\x00\x00\x0bexample.com") + ext(0x0017, b"") + ext(0x0016, b"")
         if v == 0x0304:
@@ -170,7 +172,7 @@ def build_conn(spec: Spec, rng) -> Conn:
                 o += n
             rng.shuffle(parts)
             se = b"".join(parts)
-    sh = legacy + sr + bytes([len(sid)]) + sid + suite_b + b"\x00"
+    sh = legacy + sr + bytes([len(sid)]) + sid + suite_b + (b"\x01" if deflate else b"\x00")
     has_ext = v == 0x0304 or (v != 0x0300 and spec.server_ext)
     if has_ext:
         sh += len(se).to_bytes(2, "big") + se
@@ -249,6 +251,9 @@ def build_conn(spec: Spec, rng) -> Conn:
     cw = refrec.Writer(v, p, k["client_key"], k["client_iv"], k["client_mac"], rng, etm)
     sw = refrec.Writer(v, p, k["server_key"], k["server_iv"], k["server_mac"], rng, etm)
     fin_len = 36 if v == 0x0300 else 12
+    if deflate:
+        import zlib
+        cw.deflate, sw.deflate = zlib.compressobj(), zlib.compressobj()
 
     nonce_ctr = {"c": rng.getrandbits(64), "s": rng.getrandbits(64)}
 
